@@ -144,7 +144,7 @@ def execute(case: dict):
         except Exception as e:  # noqa: BLE001
             got_kind = "other_exception"
             got_exc = "%s: %s" % (type(e).__name__, e)
-        bump("steps", sb.steps)
+        bump("volatile:steps", sb.steps)
         bump("resolves")
         bump("expected:" + (exp.kind if exp else "none"))
         bump("got:" + got_kind)
@@ -181,6 +181,8 @@ def execute(case: dict):
 
     was_enabled = gc.isenabled()
     gc.collect()
+    # hermetic start: entries left behind by earlier cases of this worker process are not part of this history
+    resolution._CONTEXTS.clear()
     gc.disable()
     try:
         for step, ev in enumerate(case["events"]):
@@ -190,7 +192,7 @@ def execute(case: dict):
             if kind == "gc":
                 before = len(resolution._CONTEXTS)
                 gc.collect()
-                bump("registry_entries_collected", max(0, before - len(resolution._CONTEXTS)))
+                bump("volatile:registry_entries_collected", max(0, before - len(resolution._CONTEXTS)))
                 continue
             d = ev["d"]
             if kind == "create":
@@ -328,7 +330,7 @@ class RegistryProperty:
             lines = doc["text"].split("\n")
             for i in range(len(lines)):
                 text = "\n".join(lines[:i] + lines[i + 1:])
-                if text.strip() and not reader.Doc(text).has_error():
+                if text.strip() and not reader.Doc(text).has_error() and not reader.EMPTY_LET.search(text):
                     c = dict(case)
                     c["docs"] = case["docs"][:d] + [dict(doc, text=text)] + case["docs"][d + 1:]
                     yield c
